@@ -137,9 +137,15 @@ def parseBoolean (s : String) : Option Bool :=
   else if l == "true" || l == "1" then some true
   else none
 
-/-- Python `int(str)` restricted to canonical decimal spellings (others are `ValueError`
-    in the model's envelope; the generator stays inside it). -/
-def parseInt (s : String) : Option Int := s.toInt?
+/-- Python `int(str)` on decimal spellings: digits with an optional sign (`-` or `+`), leading zeros allowed; surrounding
+    white space, which Python also accepts, is outside the model's envelope (the generator stays inside it). -/
+def parseInt (s : String) : Option Int :=
+  match s.toInt? with
+  | some n => some n
+  | none =>
+    match s.toList with
+    | '+' :: rest => (String.ofList rest).toNat?.map Int.ofNat
+    | _ => none
 
 /-- Result of normalising one value: stored value, `none` = Python `None`, or a crash. -/
 inductive Conv where
